@@ -190,7 +190,8 @@ def ResLeOneFields : List (String × DType F) → Prop
 end
 
 mutual
-/-- no member that is optional in a struct of `a` is mandatory in the corresponding struct of `b`
+/-- a struct of `a` whose members are *all* optional (the constructor's default, which `StructOf.compatible`
+takes as "not specified") has no member that is mandatory in the corresponding struct of `b`
 (excludes the recorded finding `C03:sound:struct->struct:optional-vs-mandatory`) -/
 def OptionalRespected : DType F → DType F → Prop
   | .array e _ _, b =>
@@ -203,7 +204,8 @@ def OptionalRespected : DType F → DType F → Prop
     | _ => True
   | .struct ms opt _, b =>
     match b with
-    | .struct ms' opt' _ => (∀ k ∈ opt, k ∈ ms'.map (·.1) → k ∈ opt') ∧ OptionalRespectedFields ms ms'
+    | .struct ms' opt' _ =>
+      ((∀ k ∈ ms.map (·.1), k ∈ opt) → ∀ k ∈ opt, k ∈ ms'.map (·.1) → k ∈ opt') ∧ OptionalRespectedFields ms ms'
     | _ => True
   | _, _ => True
 def OptionalRespectedList : List (DType F) → List (DType F) → Prop
